@@ -85,17 +85,16 @@ class IterModel:
 
     def project(self):
         from pycel.excelutil import iterative_eval_tracker as trk
-        pre = W.SHEET + '!'
         built, val, prev = [], {}, {}
         for a, cell in self.m.cell_map.items():
-            node = a[len(pre):]
+            node = W.node_of(a)
             built.append(node)
             if node in self.tracked:
                 val[node] = ['?'] if cell._value is None else W.js_val(cell._value, self.scale)
                 prev[node] = ['?'] if cell._prev_value is None else W.js_val(cell._prev_value, self.scale)
         return dict(built=sorted(built), val=val, prev=prev,
                     passes=trk.ns.iteration_number,
-                    todo=sorted(c.address.coordinate for c in trk.ns.todo))
+                    todo=sorted(W.node_of(c.address.address) for c in trk.ns.todo))
 
     def do(self, act):
         """returns (status, value, passes, per-pass values of evaluated cells)"""
@@ -110,14 +109,14 @@ class IterModel:
 
         def sink(kind, formula, *rest):
             if kind == 'end' and formula.cell is not None and passes:
-                passes[-1][formula.cell.address.coordinate] = rest[0]
+                passes[-1][W.node_of(formula.cell.address.address)] = rest[0]
 
         try:
             if act['op'] == 'set_value':
                 self.m.set_value(W.addr(act['n']), W.py_val_scaled(act['v'], self.scale))
                 return 'ok', None, None
             # what every formula cell held before the call (None: never calculated)
-            self.before = {a.split('!')[1]: c._value for a, c in self.m.cell_map.items()
+            self.before = {W.node_of(a): c._value for a, c in self.m.cell_map.items()
                            if hasattr(c, '_value') and c.formula}
             _IterativeEvalTracker.inc_iteration_number = counting
             prev_sink = _verif.set_sink(sink)
@@ -225,6 +224,8 @@ def job(arg):
                         f'{inputs} gives {want!r} [{name}]', case))
         if not drift and not has_unexact(g.states[t]):
             proj = model.project()
+            if has_unexact(proj):
+                return                  # values beyond the exact scale: not compared
             st = g.states[t]
             diffs = []
             if sorted(st['built']) != proj['built']:
@@ -267,9 +268,15 @@ def run(tier, seed):
         ]
     else:
         jobs = []
-        for name in ('chain', 'nested', 'alias', 'cse', 'range', 'grid', 'trimex'):
+        for name in ('chain', 'nested', 'alias', 'cse', 'range', 'grid', 'trimex', 'twosheet'):
             ins = sorted(W.WORKBOOKS[name]['inputs'])
-            jobs.append(('acyclic', name, [2, 'a'], [(1, 0), (2, 0), (100, 0)], ins[:2], 0, seed))
+            # the state keeps previous values and pass counts: one settable input and
+            # two (iterations, tolerance) choices keep each graph below ~10^4 states
+            small = name in ('chain', 'range', 'twosheet')
+            jobs.append(('acyclic', name, [2, 'a'] if small else [2], [(1, 0), (100, 0)],
+                         ins[:1], 0, seed))
+            if small:
+                jobs.append(('acyclic', name, [5], [(2, 0), (3, 0)], ins[-1:], 0, seed + 1))
         for name in W.WORKBOOKS_CYC:
             jobs.append(('cyclic', name, [0, 3, 8], [(1, T4), (2, T4), (3, T4), (100, T4), (100, T8), (5, T8)],
                          None, 4, seed))
